@@ -36,9 +36,17 @@ CHECKS["C03"] = dict(
     text="Theorems C03_reachable / C03_unreachable (Props/C03.v): for all 22 relative spellings, every instruction address pc >= 0 and "
          "every target t in Z: if d = t-(pc+1) fits the field the encoder emits the word whose decoded displacement is exactly d, "
          "otherwise (for any preceding operands) no machine code is produced - no wrap, no truncation. Unbounded in pc and t (lia + "
-         "sweep of the 128/4096 in-range displacements). Program-level placement is C02.",
-    note=BASE + " Modelled rather than verified: the rjmp/rcall/br arms of process.",
-    tech="Coq proof (arithmetic lemmas + finite sweep) + differential correspondence at both range limits",
+         "sweep of the 128/4096 in-range displacements). PROGRAM LEVEL (Proofs/BranchProofs.v, composing the C02 layout theorem with the "
+         "encoder theorem): C03_in_program - in every program passes 1 and 2 accept (any interleaving of segments, .org gaps, data and "
+         "other instructions around it) a relative instruction anywhere in a code segment is found in the flash image at byte 2a, where "
+         "a is also the address the encoder computed the displacement from (and what the symbol pc reads), its operands being evaluated "
+         "over the label / .equ / #define tables exactly as pass 1 left them; so the word in the image decodes to the statement with "
+         "displacement t-(a+1) for whatever target t the operand denotes; C03_never_out_of_reach - no image contains a relative "
+         "instruction whose displacement does not fit; C03_label_operand - a name bound only as a label denotes its position.",
+    note=BASE + " Modelled rather than verified: the rjmp/rcall/br arms of process. The instruction-level cases are also run under every "
+         "device row of the table (targets one flash size beyond both range ends).",
+    tech="Coq proof (arithmetic lemmas + finite sweep; pass 1 / pass 2 lock-step invariant for the position of an instruction) + "
+         "differential correspondence at both range limits and under every device",
     ref="3 C03")
 CHECKS["C04"] = dict(
     text="Theorems (Props/C04.v): C04_values_in_range - UNBOUNDED in the operand values: for every operation, operand list, program "
@@ -212,12 +220,19 @@ CHECKS["C09"] = dict(
          "the caller wrote, for all operators, levels and nesting depths (instance of the generic climbing-parser round trip); "
          "C09_register_operand / C09_index_operands / C09_expression_operand / C09_compound_operand - as an operand of an instruction "
          "line, registers r0..r31, the index forms X, X+, -X, X+expr and expressions read back as the operand the caller wrote; C09_case "
-         "(calls are matched in lower case) and C09_undefined (error naming the call's line). PARTIAL: the splice of expanded segments "
-         "into the output (pass 0), bodies that switch segments and nested calls rest on the correspondence and on the oracle search "
-         "(real build of the macro program = real build of the hand-expanded program)." + PROG,
+         "(calls are matched in lower case) and C09_undefined (error naming the call's line); THE SPLICE (Proofs/SpliceProofs.v): "
+         "C09_call_is_paste - in a code segment, a call of a macro whose substituted body has no segment directive / .org / .include line "
+         "(labels, instructions, data, .set/.def/.equ, messages, conditionals, nested macro definitions allowed) is processed by pass 0 "
+         "exactly as: parse the substituted body as a fresh code segment at the current address, take over its macros / messages / "
+         "symbols, process its items one nesting level deeper in the place of the call, go on with the rest (equation, failing runs "
+         "included); C09_call_is_paste_ok (an accepted call leaves the state the body's items written in its place leave), "
+         "C09_expansion_shape, C09_items_in_order, C09_depth_monotone. PARTIAL only for bodies that switch segments or include files: "
+         "those rest on the correspondence and on the oracle search (real build of the macro program = real build of the hand-expanded "
+         "program)." + PROG,
     note=BASE + " Search: macros with up to ten parameters, bodies with instructions, data, conditionals on parameters, nested calls and "
          "segment switches; arguments = registers, index forms, random expression trees; calls before the definition and in mixed case.",
-    tech="Coq proof (token-level substitution lemma; parser round trip instantiated for Display) + expansion oracle + differential correspondence",
+    tech="Coq proof (token-level substitution lemma; parser round trip instantiated for Display; splice of a call into pass 0 by an invariant "
+         "of the line loop + depth monotonicity) + expansion oracle + differential correspondence",
     ref="3 C09")
 
 NOT_APPLICABLE = {}
